@@ -4,11 +4,17 @@
    other sessions equal its outputs when run alone from ANY global state.
    Instance: configuring an LDPC-Staircase session, the only API step that reads the shared PRNG state
    (of_seed), is local: refused seeds are rejected up front (C09) and accepted ones overwrite the state
-   before its first read (C05, C19).  The remaining shared state (the GF(2^8) tables of codec 1, built
+   before its first read (C05, C19).
+   Second instance: of_finish_decoding of the LDPC codecs draws the injection order of the repair symbols
+   from the C library's rand(), whose state every session shares: whether decoding succeeds does not depend
+   on that order (nor on anything but the set of received symbols), and every symbol it delivers is the
+   codeword's whatever the order (Properties_C03.v, restated below for the status).
+   The remaining shared state (the GF(2^8) tables of codec 1, built
    once, proved canonical in C14; of_verbosity, printing only) and the other API steps are covered by
    the correspondence: interleaved runs of mixed sessions against solo runs in fresh processes. *)
 From Coq Require Import ZArith Arith List Bool.
-From OFV Require Import Sparse Interleave IndepLdpc.
+From OFV Require Import Sparse Interleave IndepLdpc LdpcEnc ITModel ITProofs MLModel MLSession.
+Import ListNotations.
 
 Theorem sessions_independent :
   forall (G S Op Out : Type) (step : G -> S -> Op -> G * S * Out),
@@ -22,5 +28,25 @@ Theorem ldpc_configuration_is_independent : forall fuel (h : list (nat * cfg)) g
   = solo Z (option (smat * bool)) cfg bool (ldpc_configure fuel) g' (st i) (ops_of cfg i h).
 Proof. exact ldpc_sessions_independent_proof. Qed.
 
+Theorem ldpc_finish_status_independent_of_rand :
+  forall (Sy : Type) (sxor : Sy -> Sy -> Sy) (s0 : Sy),
+  (forall a b c, sxor a (sxor b c) = sxor (sxor a b) c) -> (forall a b, sxor a b = sxor b a) ->
+  (forall a, sxor s0 a = a) -> (forall a, sxor a a = s0) ->
+  forall (H0 : list (list nat)) (R0 N0 : nat),
+  length H0 = R0 -> (forall i, i < R0 -> NoDup (nth i H0 [])) ->
+  (forall i c, i < R0 -> In c (nth i H0 []) -> c < N0) -> (forall i, i < R0 -> 2 <= length (nth i H0 [])) -> R0 <= N0 ->
+  (forall c, c < N0 -> exists i, i < R0 /\ In c (nth i H0 [])) -> stair R0 H0 -> (exists a : Sy, a <> s0) ->
+  forall cw : nat -> Sy, (forall i, i < R0 -> fold_right sxor s0 (map cw (nth i H0 [])) = s0) ->
+  forall (h1 h2 : list (nat * Sy)) (s1 s2 : st Sy) (fuel1 fuel2 : nat) (perm1 perm2 : list nat) (o1 o2 : outcome Sy),
+  (forall ev, In ev h1 -> fst ev < N0 /\ snd ev = cw (fst ev)) -> (forall ev, In ev h2 -> fst ev < N0 /\ snd ev = cw (fst ev)) ->
+  (forall c, In c (map fst h1) <-> In c (map fst h2)) ->
+  run Sy sxor s0 H0 R0 N0 (S N0) h1 = Some s1 -> run Sy sxor s0 H0 R0 N0 (S N0) h2 = Some s2 ->
+  N0 < fuel1 -> N0 < fuel2 ->
+  (forall c, c < R0 -> In c perm1) -> (forall c, In c perm1 -> c < R0) ->
+  (forall c, c < R0 -> In c perm2) -> (forall c, In c perm2 -> c < R0) ->
+  ml_finish sxor s0 fuel1 perm1 s1 = Some o1 -> ml_finish sxor s0 fuel2 perm2 s2 = Some o2 -> o_ok o1 = o_ok o2.
+Proof. exact ldpc_session_finish_order_independent. Qed.
+
 Print Assumptions sessions_independent.
+Print Assumptions ldpc_finish_status_independent_of_rand.
 Print Assumptions ldpc_configuration_is_independent.
